@@ -392,7 +392,9 @@ template <class C> void Exec<C>::exec_misc(int i, const Op& op, OpOut& o) {
     for (auto& ch : in) if (ch == 0) ch = 'x';
     o.skipped = false;
     int mode = op.kind == OP_FILENAME ? 1 + (op.opt & 1) : ((op.opt & 3) == 3 ? 3 : 0);
-    const C* src = put_str(in, A_TEXT);
+    // placement 3: the exact range at the very end of readable memory, no terminator (ranged entry points only)
+    const bool ranged_only = op.placement == 3 && (mode == 3 || (mode == 0 && (op.entry & 1)));
+    const C* src = ranged_only ? texts[(size_t)make_text(in, -1, 0, 0, false)].base : put_str(in, A_TEXT);
     size_t n = in.size();
     auto out_buf = [&](size_t chars) -> C* { return guarded_buf(chars).buf; };
     auto zlen = [&](const C* b, size_t maxc) { size_t l = 0; while (l < maxc && b[l] != 0) l++; return l; };
@@ -492,6 +494,16 @@ template <class C> void Exec<C>::exec_query(int i, const Op& op, OpOut& o) {
         if (q.state != S_VALID) return;
         o.skipped = false;
         event("op %d freeql q%d", i, s);
+        if (mgr_of(op.mgr).kind == MK_INCOMPLETE && !q.harness_built && q.head) {
+            // the release call itself must reject an incomplete manager before touching anything
+            MgrInst& im = mgr_of(op.mgr); QL* h = q.head; std::string before = snapshot_list(h); volatile int rc = 0;
+            if (!call(i, TAG_Q + s, op.mgr, FaultPlan(), [&] { rc = A::FreeQueryListMm(h, im.table); })) { o.aborted = true; return; }
+            if (rc != URI_ERROR_MEMORY_MANAGER_INCOMPLETE) violate(V_ALLOC_BEFORE_REJECT, "uriFreeQueryListMm with an incomplete manager returned " + std::to_string(rc), false);
+            if (outs_tmp_reqs || outs_tmp_frees) violate(V_ALLOC_BEFORE_REJECT, "uriFreeQueryListMm with an incomplete manager used the manager before rejecting it", false);
+            (void)before;
+            o.digest = "rejected";
+            return;
+        }
         if (!release(q, s) || !release_str(q, s)) { o.aborted = true; return; }
         o.digest = "freed";
         return;
